@@ -513,14 +513,17 @@ pub fn explore<S: Sys>(
                         signature: v[1].as_str().unwrap_or("").to_string(),
                         detail: v[2].as_str().unwrap_or("").to_string(),
                     };
+                    // A wrong answer of a read-only API leaves implementation and model in
+                    // agreement about the state itself: report it, but keep expanding.
+                    let cutting = !v.signature.contains("|read:");
                     match classify(&v) {
                         Disposition::Ignore => {}
                         Disposition::KnownForeign => {
-                            cut_here = true;
+                            cut_here |= cutting;
                             cut_foreign.fetch_add(1, Ordering::Relaxed);
                         }
                         d => {
-                            cut_here = true;
+                            cut_here |= cutting;
                             found.lock().push(Found {
                                 path: path.clone(),
                                 shown: vec![],
